@@ -99,7 +99,8 @@ def gen(t, tier):
                 sc['ops'].append(['cond', u, 'inm', t.pick(['current', 'current', 'previous', 'garbage', 'quoted'])])
             else:
                 sc['ops'].append(['cond', u, 'ims', t.pick(['before', 'equal', 'after', 'after1', 'malformed', 'ancient',
-                                                            'previous', 'previous'] + (['previous'] * 6 if linked else []))])
+                                                            'previous', 'previous'] + (['previous'] * 6 if linked else [])),
+                                  t.pick(['imf', 'imf', 'rfc850', 'asctime'])])
         elif k == 'cond_refresh':
             sc['ops'].append(['cond_refresh', u, t.pick(['inm', 'ims'])])
         elif k == 'adv':
@@ -112,10 +113,15 @@ def gen(t, tier):
             sc['ops'].append(['purge', u])
         else:
             sc['ops'].append(['up500', bool(t.choice(2))])
+    sc['tz'] = t.pick(C.TIMEZONES)
     return sc
 
 
 def shrink(sc):
+    if sc.get('tz', 'UTC') != 'UTC':
+        c = copy.deepcopy(sc)
+        c['tz'] = 'UTC'
+        yield c
     n = len(sc['ops'])
     size = n // 2
     while size >= 1:
@@ -161,11 +167,16 @@ def _decode(body):
 
 
 def run(sc, tape):
+    with C.local_timezone(sc.get('tz')):
+        return _run(sc, tape)
+
+
+def _run(sc, tape):
     import mapproxy.client.http as H
     import mapproxy.util.times as times
     import datetime as real_dt
     import types
-    from mapproxy.util.times import parse_httpdate, format_httpdate
+    parse_httpdate = C.parse_imf_date       # the check reads and writes HTTP dates with its own code
 
     name = '%s:%s%s' % (sc['service'], sc['backend'], '-meta' if sc['meta_size'] != [1, 1] else '')
     w = World(tape, with_sched=False, start_time=1.7e9 + sc['frac'])
@@ -360,6 +371,8 @@ def run(sc, tape):
                             headers['If-None-Match'] = 'deadbeef' + cur['etag'][8:]
                             expect304 = False
                     else:
+                        form = op[4] if len(op) > 4 else 'imf'
+                        format_httpdate = lambda ts_: C.http_date(ts_, form)     # noqa: E731
                         if op[3] == 'before':
                             headers['If-Modified-Since'] = format_httpdate(lm_ts - 5)
                             expect304 = False
@@ -379,8 +392,8 @@ def run(sc, tape):
                             # the date of the client's older copy; the tile has been rewritten since
                             if u not in prev or prev[u]['lm'] is None:
                                 continue
-                            headers['If-Modified-Since'] = prev[u]['lm']
                             plm = parse_httpdate(prev[u]['lm'])
+                            headers['If-Modified-Since'] = prev[u]['lm'] if plm is None else format_httpdate(plm)
                             expect304 = False if plm is not None and plm < lm_ts else None
                             if plm is not None and plm == lm_ts and sc['backend'].startswith('file'):
                                 # rewritten within the same second: a backend with sub-second timestamps can (and the
